@@ -192,7 +192,10 @@ func (m *FMsg) Encode() []Chunk {
 		return []Chunk{{Lit: append([]byte(nil), m.Data...)}}
 	}
 	if m.K == "flood" {
-		return []Chunk{{Pat: []byte{m.T, 0, 0, 0, 4}, N: 5 * m.Rep}}
+		// (with Data: that message of type T, repeated)
+		pat := binary.BigEndian.AppendUint32([]byte{m.T}, uint32(4+len(m.Data)))
+		pat = append(pat, m.Data...)
+		return []Chunk{{Pat: pat, N: int64(len(pat)) * m.Rep}}
 	}
 	body := m.Body()
 	if m.NoNul && len(body) > 0 {
